@@ -1,1 +1,161 @@
-From PAFC04 Require Import Gen Model.
+(* C04 -- the figure of merit handed to a search.  Statements only; every proof is `exact <lemma>`.
+   V is any number type with the generated formulas of Gen.v plugged in (num V); m any model
+   (limits in id order, instance slots, assertions), L any likelihood of the instance, lp any family
+   of per-prior log-prior functions, r the resample value, I any implementation traits. *)
+From Coq Require Import ZArith QArith List Bool.
+From PAFC04 Require Import Gen Model Proofs Witness.
+Import ListNotations.
+
+(* what "successfully evaluated" means: right length, every entry within its prior's limits, every
+   assertion holds, the likelihood of the instance returns a number that is not nan *)
+Theorem C04_success_iff : forall (V : Type) (N : num V) (m : @model V) (L : @lik V) (vec : list V) (ll : V) (b : bool),
+  evaluate N m L vec = EvOk ll b <->
+  (length vec = prior_count m /\ limits_ok N (m_limits m) vec = true /\
+   forallb (assert_ok N vec) (m_asserts m) = true /\
+   L (instance N m vec) = LRet ll b /\ n_isnan N ll = false).
+Proof. exact @evaluate_ok_iff. Qed.
+
+Theorem C04_limits_gate : forall (V : Type) (N : num V) (lims : list (V * V)) (vec : list V),
+  length vec = length lims ->
+  (limits_ok N lims vec = true <->
+   forall k, (k < length vec)%nat ->
+     n_leb N (fst (nth k lims (n_zero N, n_zero N))) (nth k vec (n_zero N)) = true /\
+     n_leb N (nth k vec (n_zero N)) (snd (nth k lims (n_zero N, n_zero N))) = true).
+Proof. exact @limits_ok_iff. Qed.
+
+(* the eight flag combinations: likelihood / posterior x chi-squared or not (x history: irrelevant);
+   resample outcomes give exactly r (not converted); one of the two always applies *)
+Theorem C04_fom : forall (V : Type) (N : num V) (m : @model V) (L : @lik V) (lp : @lprior V) (fl : flags) (r : V) (vec : list V),
+  length vec = prior_count m ->
+  (forall ll b, evaluate N m L vec = EvOk ll b ->
+     call_value N m L lp fl r vec =
+     Returned (match fl_like fl, fl_chi2 fl with
+               | true, false => f_like N ll
+               | false, false => f_post N ll (pysum N (lp_list lp 0 vec))
+               | true, true => f_chi2 N (f_like N ll)
+               | false, true => f_chi2 N (f_post N ll (pysum N (lp_list lp 0 vec)))
+               end)) /\
+  (evaluate N m L vec = EvResample -> call_value N m L lp fl r vec = Returned r) /\
+  ((exists ll b, evaluate N m L vec = EvOk ll b) \/ evaluate N m L vec = EvResample).
+Proof. exact @call_value_spec. Qed.
+
+(* meaning of the generated formulas over exact rationals: (-2)^chi2 * (ll + [posterior] sum of terms) *)
+Theorem C04_fom_meaning : forall (fl : flags) (lp : @lprior Q) (vec : list Q) (ll : Q),
+  merit numQ fl lp vec ll ==
+  (if fl_chi2 fl then -2 # 1 else 1) * (ll + (if fl_like fl then 0 else qsum (lp_list lp 0 vec))).
+Proof. exact merit_Q. Qed.
+
+(* log-prior terms: as many as entries, k-th prior (id order) applied to k-th entry *)
+Theorem C04_prior_terms : forall (V : Type) (lp : @lprior V) (vec : list V) (k : nat) (d d' : V),
+  (k < length vec)%nat -> nth k (lp_list lp 0 vec) d = lp (0 + k)%nat (nth k vec d').
+Proof. exact (fun V lp => @lp_list_nth V lp 0%nat). Qed.
+
+Theorem C04_prior_terms_count : forall (V : Type) (lp : @lprior V) (vec : list V),
+  length (lp_list lp 0 vec) = length vec.
+Proof. exact (fun V lp => @lp_list_length V lp 0%nat). Qed.
+
+(* limit violation, assertion violation, FitException, nan: the search receives r *)
+Theorem C04_resample : forall (V : Type) (N : num V) (m : @model V) (L : @lik V) (lp : @lprior V) (fl : flags) (r : V) (vec : list V),
+  length vec = prior_count m ->
+  (limits_ok N (m_limits m) vec = false \/
+   forallb (assert_ok N vec) (m_asserts m) = false \/
+   L (instance N m vec) = LRaise \/
+   (exists ll b, L (instance N m vec) = LRet ll b /\ n_isnan N ll = true)) ->
+  call_value N m L lp fl r vec = Returned r.
+Proof. exact @resample_cases. Qed.
+
+(* no exception escapes for a vector of the model's length; the only escape of the model is the
+   AssertionError of a vector of another length *)
+Theorem C04_no_escape : forall (V : Type) (N : num V) (m : @model V) (L : @lik V) (lp : @lprior V) (fl : flags) (r : V) (vec : list V),
+  length vec = prior_count m -> exists v, call_value N m L lp fl r vec = Returned v.
+Proof. exact @call_value_no_escape. Qed.
+
+Theorem C04_escape_only_wrong_length : forall (V : Type) (N : num V) (m : @model V) (L : @lik V) (lp : @lprior V) (fl : flags) (r : V) (vec : list V) (e : exn),
+  call_value N m L lp fl r vec = Escaped e -> length vec <> prior_count m /\ e = EAssertionError.
+Proof. exact @call_value_escape_only_length. Qed.
+
+(* repeated evaluation: over any operation sequence, from any state (any history so far) and for any
+   implementation traits, what each call returns is call_value of the buffer's contents at that moment *)
+Theorem C04_deterministic : forall (V : Type) (N : num V) (I : impl) (m : @model V) (L : @lik V) (lp : @lprior V) (fl : flags) (r : V)
+    (st : @state V) (ops : list (@op V)),
+  snd (run N I m L lp fl r false st ops) = spec_outputs N m L lp fl r (heap st) ops.
+Proof. exact @run_outputs. Qed.
+
+(* history, full statement: for every operation sequence (calls interleaved with in-place overwrites of
+   the caller's buffers) the history read at the end is exactly the successfully evaluated vectors, as
+   they were when evaluated, with their likelihoods, in order.  Holds when entries are stored by value
+   and the chi-squared conversion does not touch the stored likelihood (repaired traits). *)
+Theorem C04_history : forall (V : Type) (N : num V) (I : impl) (m : @model V) (L : @lik V) (lp : @lprior V) (fl : flags) (r : V)
+    (h : list (list V)) (ops : list (@op V)),
+  i_alias I = false -> i_inplace I = false ->
+  view (fst (run N I m L lp fl r false (fresh h) ops)) = spec_history N m L fl (trace false h ops).
+Proof. exact (fun V N I m L lp fl r h ops Ha Hi => @history_byvalue V N I m L lp fl r h ops Ha (or_introl Hi)). Qed.
+
+(* pinned code: the full statement fails ... *)
+Theorem C04_history_refuted :
+  exists (m : @model Q) L lp fl r h ops,
+    view (fst (run numQ buggy_impl m L lp fl r false (fresh h) ops)) <> spec_history numQ m L fl (trace false h ops).
+Proof. exact history_alias_refuted. Qed.
+
+Theorem C04_history_likelihood_refuted :
+  exists (m : @model Q) L lp fl r h ops,
+    no_write_after_call ops = true /\
+    view (fst (run numQ buggy_impl m L lp fl r false (fresh h) ops)) <> spec_history numQ m L fl (trace false h ops).
+Proof. exact history_inplace_refuted. Qed.
+
+(* ... and holds for every implementation traits whenever no buffer is overwritten after a call on it
+   and the likelihood is never a mutable 0-d array (or the mode is not likelihood + chi-squared) *)
+Theorem C04_history_partial : forall (V : Type) (N : num V) (I : impl) (m : @model V) (L : @lik V) (lp : @lprior V) (fl : flags) (r : V)
+    (h : list (list V)) (ops : list (@op V)),
+  no_write_after_call ops = true ->
+  (never_boxed L \/ fl_like fl && fl_chi2 fl = false) ->
+  view (fst (run N I m L lp fl r false (fresh h) ops)) = spec_history N m L fl (trace false h ops).
+Proof. exact (fun V N I m L lp fl r h ops Hn Hb => @history_partial V N I m L lp fl r h ops Hn (or_intror Hb)). Qed.
+
+Theorem C04_history_off : forall (V : Type) (N : num V) (I : impl) (m : @model V) (L : @lik V) (lp : @lprior V) (fl : flags) (r : V)
+    (h : list (list V)) (ops : list (@op V)),
+  fl_store fl = false -> view (fst (run N I m L lp fl r false (fresh h) ops)) = [].
+Proof. exact @history_off. Qed.
+
+(* pyswarms: a particle of the model's length gets -2*(ll + sum of terms) unless that is nan, a limit or
+   assertion fails or FitException is raised, in which case it gets the generated resample value;
+   no flag is consulted *)
+Theorem C04_pyswarms_particle : forall (V : Type) (N : num V) (m : @model V) (L : @lik V) (lp : @lprior V) (r : V) (vec : list V),
+  length vec = prior_count m ->
+  ps_particle N m L lp r vec =
+  if gate N m vec then
+    match L (instance N m vec) with
+    | LRaise => (Returned (p_res N r), None)
+    | LRet ll _ => if n_isnan N (ps_merit N lp vec ll) then (Returned (p_res N r), None)
+                   else (Returned (ps_merit N lp vec ll), Some (vec, ll))
+    end
+  else (Returned (p_res N r), None).
+Proof. exact @ps_particle_cases. Qed.
+
+Theorem C04_pyswarms_meaning : forall (lp : @lprior Q) (vec : list Q) (ll r : Q),
+  ps_merit numQ lp vec ll == (-2 # 1) * (ll + qsum (lp_list lp 0 vec)) /\ p_res numQ r == (-2 # 1) * r.
+Proof. exact (fun lp vec ll r => conj (ps_merit_Q lp vec ll) (ps_res_Q r)). Qed.
+
+(* pyswarms over any sequence of single calls, batches and overwrites: one value per particle in
+   particle order, independent of flags / history / traits; the history is the successful particles
+   (by value) when the traits record one, and nothing otherwise *)
+Theorem C04_pyswarms_run : forall (V : Type) (N : num V) (I : impl) (m : @model V) (L : @lik V) (lp : @lprior V) (fl : flags) (r : V)
+    (h : list (list V)) (ops : list (@op V)),
+  Forall (fun v => length v = prior_count m) (trace true h ops) ->
+  view (fst (run N I m L lp fl r true (fresh h) ops)) =
+    (if i_pshist I then spec_history_ps N m L lp r fl (trace true h ops) else []) /\
+  snd (run N I m L lp fl r true (fresh h) ops) = spec_outputs_ps N m L lp r h ops.
+Proof. exact @pyswarms_run. Qed.
+
+Theorem C04_pyswarms_history_refuted :
+  exists (m : @model Q) L lp fl r h ops,
+    Forall (fun v => length v = prior_count m) (trace true h ops) /\
+    view (fst (run numQ buggy_impl m L lp fl r true (fresh h) ops)) <> spec_history_ps numQ m L lp r fl (trace true h ops).
+Proof. exact pyswarms_history_refuted. Qed.
+
+Print Assumptions C04_fom.
+Print Assumptions C04_fom_meaning.
+Print Assumptions C04_history.
+Print Assumptions C04_history_partial.
+Print Assumptions C04_history_refuted.
+Print Assumptions C04_pyswarms_run.
